@@ -40,7 +40,7 @@ try:
 except Exception:                      # the ring-buffer part is optional here
     C02 = None
 
-PROOFS = ["MgProof.C03.Channel", "MgProof.C03.DoubleBuffer", "MgProof.C03.ABQ"]
+PROOFS = ["MgProof.C03.Channel", "MgProof.C03.DoubleBuffer", "MgProof.C03.ABQ", "MgProof.C03.ABQGlobal"]
 if os.path.exists(os.path.join(vlib.LEAN, "MgProof", "C03", "RingBuffer.lean")):
     PROOFS.append("MgProof.C03.RingBuffer")
 GREP = ["MgProof/C03", "MgModel/C01", "MgModel/Common", "Drv/C01.lean"]
